@@ -44,9 +44,16 @@ fn ref_threshold(r: BatchRegime) -> usize {
 /// symbolic count every index into the std `Vec`s of the real queue becomes symbolic and CBMC did
 /// not finish even for 3 datagrams; lengths, bytes, sequence numbers, times and regime stay
 /// symbolic.
-fn fifo_integrity<const N: usize>() {
+fn fifo_integrity<const N: usize, const REGIME: u8>() {
     let mut b = BatchSender::new();
-    b.set_regime(any_regime());
+    // the regime is concrete per instance too (0 low activity, 1 normal, 2 high load): with a
+    // symbolic regime a change that makes the stored count depend on the threshold turns every queue
+    // index symbolic again and the solver gives up instead of answering
+    b.set_regime(match REGIME {
+        0 => BatchRegime::LowActivity,
+        1 => BatchRegime::Normal,
+        _ => BatchRegime::HighLoad,
+    });
     let pk: [Pkt; N] = core::array::from_fn(|_| any_pkt());
     let mut i = 0;
     while i < N {
@@ -90,23 +97,26 @@ fn fifo_integrity<const N: usize>() {
 }
 
 macro_rules! fifo_instance {
-    ($name:ident, $n:expr, $unwind:expr) => {
+    ($name:ident, $n:expr, $regime:expr, $unwind:expr) => {
         #[kani::proof]
         #[kani::unwind($unwind)]
         fn $name() {
-            fifo_integrity::<$n>();
+            fifo_integrity::<$n, $regime>();
         }
     };
 }
-fifo_instance!(c01_fifo_integrity_0, 0, 6);
-fifo_instance!(c01_fifo_integrity_1, 1, 6);
-fifo_instance!(c01_fifo_integrity_2, 2, 6);
-fifo_instance!(c01_fifo_integrity_4, 4, 6);
-fifo_instance!(c01_fifo_integrity_5, 5, 7);
-fifo_instance!(c01_fifo_integrity_16, 16, 18);
-fifo_instance!(c01_fifo_integrity_17, 17, 19);
-fifo_instance!(c01_fifo_integrity_32, 32, 34);
-fifo_instance!(c01_fifo_integrity_33, 33, 35);
+fifo_instance!(c01_fifo_0_normal, 0, 1, 6);
+fifo_instance!(c01_fifo_1_low, 1, 0, 6);
+fifo_instance!(c01_fifo_2_normal, 2, 1, 6);
+fifo_instance!(c01_fifo_4_low, 4, 0, 6);
+fifo_instance!(c01_fifo_5_low, 5, 0, 7);
+fifo_instance!(c01_fifo_5_high, 5, 2, 7);
+fifo_instance!(c01_fifo_16_normal, 16, 1, 18);
+fifo_instance!(c01_fifo_17_normal, 17, 1, 19);
+fifo_instance!(c01_fifo_17_low, 17, 0, 19);
+fifo_instance!(c01_fifo_32_high, 32, 2, 34);
+fifo_instance!(c01_fifo_33_high, 33, 2, 35);
+fifo_instance!(c01_fifo_33_normal, 33, 1, 35);
 
 /// Flush predicates from an arbitrary depth/regime: size threshold and the 15 ms timer.
 fn flush_predicates<const D: usize>() {
